@@ -13,7 +13,7 @@ LEVEL = "fault_enumeration"
 RULE = (
     "scenario = history with 1-5 generations and 0-3 nested histories (depth<=3); faults = every manifest of every history x "
     "edit kinds {flip bit at offset 0 / last byte / random offset, insert byte, delete byte, truncate to 0, truncate to half, "
-    "append newline, remove file} plus removal of every chain file; each fault is followed by all eight commands (create, "
+    "append newline, remove file, overwrite with another generation's bytes, move into a sub folder of ascmhl, edit while a pristine copy sits in a sub folder of ascmhl} plus removal of every chain file; each fault is followed by all eight commands (create, "
     "create -sf, verify, verify -dh, diff, info, info -sf, flatten); quick samples 3 edit kinds per manifest, thorough runs all; "
     "class = (command, edit kind, generation position first/middle/last, nesting depth of the damaged history)"
 )
@@ -23,7 +23,7 @@ ASSUMPTIONS = [
 ]
 MIN_DECIDING = {"fault_command_pairs": 500, "faults_injected": 60}
 
-EDITS = ["flip0", "fliplast", "fliprand", "insert", "delete", "trunc0", "trunchalf", "appendnl", "remove", "rollback"]
+EDITS = ["flip0", "fliplast", "fliprand", "insert", "delete", "trunc0", "trunchalf", "appendnl", "remove", "rollback", "moved", "shadowed"]
 CMDS = ["create", "create-sf", "verify", "verify-dh", "diff", "info", "info-sf", "flatten"]
 
 
@@ -102,9 +102,18 @@ def run_case(cs):
         with open(p, "rb") as f:
             orig = f.read()
         st = os.stat(p)
+        sub = None
+        if kind in ("moved", "shadowed"):
+            # a sub folder inside the ascmhl folder ("archive", "backup") holding a file named like the chained manifest
+            sub = os.path.join(hist.asc_dir(root, h), rng.choice(["archive", "backup", "old", ".trash"]))
         if kind == "remove":
             os.remove(p)
             want = 32 if name == "ascmhl_chain.xml" else 33
+        elif kind == "moved":
+            os.makedirs(sub, exist_ok=True)
+            os.rename(p, os.path.join(sub, name))
+            new = None
+            want = 33
         else:
             if kind == "rollback":
                 # overwritten with the exact bytes of another generation that the same chain lists
@@ -113,9 +122,15 @@ def run_case(cs):
                     continue
                 with open(os.path.join(hist.asc_dir(root, h), rng.choice(others)), "rb") as f2:
                     new = f2.read()
+            elif kind == "shadowed":
+                os.makedirs(sub, exist_ok=True)
+                shutil.copy2(p, os.path.join(sub, name))
+                new = _edit(rng, orig, rng.choice(["fliprand", "appendnl", "insert"]))
             else:
                 new = _edit(rng, orig, kind)
             if new == orig:
+                if sub:
+                    shutil.rmtree(sub, ignore_errors=True)
                 continue
             with open(p, "wb") as f:
                 f.write(new)
@@ -173,7 +188,7 @@ def run_case(cs):
             elif r.exit != want:
                 cs.violation(
                     "tamper-not-refused" if r.exit in (0, 10, 11, 12, 20, 21) else "tamper-wrong-exit-code",
-                    {"kind": "tamper-exit", "cmd": cmd, "exit": r.exit, "want": want, "edit": kind if kind == "remove" else "modify", "nested": hdepth > 0, "position": pos},
+                    {"kind": "tamper-exit", "cmd": cmd, "exit": r.exit, "want": want, "edit": kind if kind in ("remove", "moved") else "modify", "nested": hdepth > 0, "position": pos},
                     {**ctx, "out": r.text[-300:]},
                 )
             if muts or not snap.empty(df):
@@ -186,10 +201,18 @@ def run_case(cs):
                 shutil.copytree(pristine, area, symlinks=True)
                 if kind == "remove":
                     os.remove(p)
+                elif kind == "moved":
+                    os.makedirs(sub, exist_ok=True)
+                    os.rename(p, os.path.join(sub, name))
                 else:
+                    if kind == "shadowed":
+                        os.makedirs(sub, exist_ok=True)
+                        shutil.copy2(p, os.path.join(sub, name))
                     with open(p, "wb") as f:
                         f.write(new)
         # restore
+        if sub:
+            shutil.rmtree(sub, ignore_errors=True)
         with open(p, "wb") as f:
             f.write(orig)
         os.utime(p, ns=(st.st_atime_ns, st.st_mtime_ns))
